@@ -18,7 +18,8 @@ Inductive pev :=
 | EvStart (t : taskid)            (* a worker received the task and called it *)
 | EvEnd (t : taskid)              (* the task returned (and wg.Done() ran) *)
 | EvWaitReturn (j : nat)          (* Wait() returned in submitter j *)
-| EvPark (ts : list taskid).      (* gated runs: quiescent with exactly these tasks inside their function *)
+| EvPark (ts : list taskid)       (* gated runs: quiescent with exactly these tasks inside their function *)
+| EvSubmitted (k : nat).          (* gated runs, noted at each quiescent point: Submit has returned k times *)
 
 Record sub := { s_ops : list pop; s_adding : bool }.   (* remaining operations; between Add and send *)
 
@@ -190,7 +191,8 @@ Fixpoint pgated (fuel : nat) (rel : list taskid) (s : pst) : pst :=
       | Some t =>
           let s1 := {| p_subs := p_subs s0; p_queue := p_queue s0; p_wg := p_wg s0; p_ws := p_ws s0;
                        p_closed := p_closed s0; p_added := p_added s0;
-                       p_log := p_log s0 ++ [EvPark (sort_nats busy)] |} in
+                       p_log := p_log s0 ++ [EvSubmitted (length (p_added s0) - length (pending_sends (p_subs s0)));
+                                             EvPark (sort_nats busy)] |} in
           match worker_of (p_ws s1) t 0 with
           | Some k => match pstep s1 (TWrk k) with Some s2 => pgated f rel s2 | None => s1 end
           | None => s1
